@@ -271,6 +271,8 @@ package genql
 //@   requires q: query != nil && query.options != nil
 //@   safety[C20]
 //@   ensures same-map[C20]: query.options.vars == vars
+//@   frame[C11,C20]
+//@   modifies F|genql.Options|vars at query.options
 
 //@ lemma register-read-after-write[C20]: (forall ((m (Array Str Any)) (k Str) (v Any)) (= (select (store m k v) k) v))
 //@ lemma register-other-keys[C20]: (forall ((m (Array Str Any)) (k Str) (j Str) (v Any)) (=> (not (= j k)) (= (select (store m k v) j) (select m j))))
@@ -901,3 +903,14 @@ package genql
 // a tuple holds values, not the evaluator's wrappers
 //@ func ValueTupleExpr
 //@   at-call append assert every-element-went-through-ValueOf[C12,C02]: called(ValueOf) && appended == callresult(ValueOf, 0)
+
+// C17: Wrapped() puts the caller's document under `root` once, in New; every nested query (derived table, CTE, UNION
+// branch, subquery) is prepared on the document it is handed, as it is
+//@ func New
+//@   at-call Build assert wrapped-means-under-root-and-nothing-else[C17]: (q.options.wrapped ==> fresh(q.data) && has(q.data, "root") && q.data["root"] == any(data)) && (!q.options.wrapped ==> q.data == data)
+//@ func Prepare
+//@   at-call Build assert the-document-is-taken-as-it-is-handed-over[C17,C07]: q.data == data && q.options == options
+
+// C08/C09: mix=> flattens to the bottom: what MixArray keeps as it is, is not an array
+//@ func MixArray
+//@   at-call append:item assert what-is-kept-as-it-is-is-not-an-array[C08,C09]: !typeis(appended, []any)
